@@ -187,6 +187,11 @@ def run_case(case, rng):
                 if exc is None:
                     tables.append(np.array(out.state_controller_value.numpy(), copy=True))
             learner = bpi_mod.FSCBoundedPolicyIteration(controller_state_count=nn, iterations=iters, seed=seed)
+            if rng.random() < 0.25:
+                # the same learner object is first trained on another POMDP (other sizes); nothing may leak
+                other = Bd.build_pomdp(GP.random_pomdp(rng), explicit=False)
+                case.call("FSCBoundedPolicyIteration.train_on(other problem first)", learner.train_on, other, facts=facts)
+                case.count("learners_reused")
             with wrap(bpi_mod, "stochastic_fsc_policy_evaluation_exact", after=after) as w:
                 res = case.call("FSCBoundedPolicyIteration.train_on", learner.train_on, pomdp, facts=facts)
             case.count("bpi_runs")
@@ -204,6 +209,10 @@ def run_case(case, rng):
             iters = rng.randint(1, 25)
             lr = rng.choice([0.1, 0.1, 0.5, 1.0, 2.0])       # large steps make the trajectory non-monotone
             learner = ga_mod.FSCGradientAscent(controller_state_count=nn, iterations=iters, seed=seed, learning_rate=lr)
+            if rng.random() < 0.25:
+                other = Bd.build_pomdp(GP.random_pomdp(rng), explicit=False)
+                case.call("FSCGradientAscent.train_on(other problem first)", learner.train_on, other, facts=facts)
+                case.count("learners_reused")
             res = case.call("FSCGradientAscent.train_on", learner.train_on, pomdp, facts=facts)
             case.count("ga_runs")
             case.sig("ga", len(S), len(A), len(OL), nn, gamma, live_abs, iters, seed % 1000)
